@@ -50,7 +50,9 @@ def lnprior_of_row(i):
     return -3.0 - np.asarray(i, dtype=float) / 8.0
 
 
-def make_library(n, seed=0, with_lnprior=True, s_value=0.0):
+def make_library(n, seed=0, with_lnprior=True, s_value=0.0, alt_units=False):
+    """alt_units: jitter non-zero and in m/s, angles in degrees (none of them the kernel's internal unit):
+    the values returned must still be the library's values as physical quantities."""
     import astropy.units as u
     from thejoker.samples import JokerSamples
 
@@ -58,9 +60,14 @@ def make_library(n, seed=0, with_lnprior=True, s_value=0.0):
     lib = JokerSamples()
     lib["P"] = row_P(np.arange(n)) * u.day
     lib["e"] = np.round(r.uniform(0, 0.6, n) * 1024) / 1024 * u.one
-    lib["omega"] = np.round(r.uniform(0, 6, n) * 1024) / 1024 * u.rad
-    lib["M0"] = np.round(r.uniform(0, 6, n) * 1024) / 1024 * u.rad
-    lib["s"] = np.full(n, s_value) * u.km / u.s
+    if alt_units:
+        lib["omega"] = np.round(r.uniform(0, 350, n) * 16) / 16 * u.deg
+        lib["M0"] = np.round(r.uniform(0, 350, n) * 16) / 16 * u.deg
+        lib["s"] = np.round(r.uniform(1, 900, n) * 4) / 4 * u.m / u.s
+    else:
+        lib["omega"] = np.round(r.uniform(0, 6, n) * 1024) / 1024 * u.rad
+        lib["M0"] = np.round(r.uniform(0, 6, n) * 1024) / 1024 * u.rad
+        lib["s"] = np.full(n, s_value) * u.km / u.s
     if with_lnprior:
         lib["ln_prior"] = lnprior_of_row(np.arange(n))
     return lib
